@@ -1205,6 +1205,14 @@ fn eval_streams(case: &StreamCase, ev: &mut Evaluation) {
         case.files.iter().filter(|f| f.1 || f.2.is_some()).count() as u64,
     );
     ev.add("faults.terminal_failure_planned", case.term_faults.len() as u64);
+    ev.add(
+        "faults.file_replaced_between_operations",
+        case.ops.iter().filter(|o| matches!(o, SOp::Rewrite { .. })).count() as u64,
+    );
+    ev.add(
+        "faults.interaction_mode_switched",
+        case.ops.iter().filter(|o| matches!(o, SOp::Mode(_))).count() as u64,
+    );
     ev.nontrivial = reads > 0 && opens > 0;
     if ev.violation.is_none() && trace.failures.is_empty() && trace.aborted.is_none() {
         if let Some((_, d_tex)) = check(&exp_tex) {
